@@ -20,14 +20,14 @@ LEVEL = "model_checking"
 RULE = (
     "guard formulas = closure of {and, or, not} up to the depth bound over atoms {true, false, raising, missing, "
     "param-literal-true/false, param-callable, param-literal-0, param-computed-empty-object (guard with a default), stateIn active leaf (#abs), stateIn active ancestor (plain), stateIn "
-    "suffix, stateIn inactive}; depth<=1 formulas are crossed with 3 operand spellings x {guard, cond} x 6 positions "
+    "suffix, stateIn inactive, stateIn inactive sibling whose key is a prefix of the active one's}; depth<=1 formulas are crossed with 3 operand spellings x {guard, cond} x 6 positions "
     "(sole, first-of-two, second-behind-false, parent-behind-false-child, choose branch, enqueueActions check); "
     "deeper formulas are evaluated in the sole position with spellings rotated; each case = one machine + send(E) + "
     "probe; distinct_nontrivial = distinct (formula, spelling, key, position) cases"
 )
 BOUNDS = {
-    "quick": "depth<=1 over 13 atoms fully crossed; depth 2 over 6 atoms (sole position)",
-    "thorough": "depth<=1 over 13 atoms fully crossed; depth 2 over 6 atoms in all positions; depth-3 left/right chains over {T,F,R}",
+    "quick": "depth<=1 over 14 atoms fully crossed; depth 2 over 6 atoms (sole position)",
+    "thorough": "depth<=1 over 14 atoms fully crossed; depth 2 over 6 atoms in all positions; depth-3 left/right chains over {T,F,R}",
 }
 ASSUMPTIONS = [
     "a missing atom that cannot influence the formula's value may or may not be reported (short-circuiting is allowed)",
@@ -35,7 +35,7 @@ ASSUMPTIONS = [
 ]
 ENGINES = ("sync", "async")
 
-ATOMS1 = ["T", "F", "R", "M", "Pt", "Pf", "Pc", "Pz", "Pe", "Sa", "Sp", "Ss", "Si"]
+ATOMS1 = ["T", "F", "R", "M", "Pt", "Pf", "Pc", "Pz", "Pe", "Sa", "Sp", "Ss", "Si", "Sn"]
 ATOMS2 = ["T", "F", "R", "M", "Sa", "Si"]
 POSITIONS = ["sole", "first", "second", "parent", "second-p", "parent-p", "choose", "check"]
 
@@ -57,6 +57,8 @@ def atom_cfg(a: str) -> Any:
         "Sp": {"type": "stateIn", "params": {"state": "m.p"}},
         "Ss": {"type": "stateIn", "params": {"state": "p.c1"}},
         "Si": {"type": "stateIn", "params": {"state": "#m.q"}},
+        # near miss: the inactive state m.p.c, whose key is a proper textual prefix of the active m.p.c1's
+        "Sn": {"type": "stateIn", "params": {"state": "#m.p.c"}},
     }[a]
 
 
@@ -70,7 +72,7 @@ def _callable_params(args):
 
 def atom_val(a: str) -> Any:
     return {"T": True, "F": False, "R": False, "M": "M", "Pt": True, "Pf": False, "Pc": True, "Pz": True, "Pe": False,
-            "Sa": True, "Sp": True, "Ss": True, "Si": False}[a]
+            "Sa": True, "Sp": True, "Ss": True, "Si": False, "Sn": False}[a]
 
 
 def to_cfg(f, spelling: int) -> Any:
@@ -159,7 +161,7 @@ def make_cfg(gcfg: Any, key: str, pos: str) -> Dict[str, Any]:
         return t
 
     c1: Dict[str, Any] = {"on": {}}
-    p: Dict[str, Any] = {"initial": "c1", "states": {"c1": c1, "c2": {}}, "on": {}}
+    p: Dict[str, Any] = {"initial": "c1", "states": {"c1": c1, "c2": {}, "c": {}}, "on": {}}
     root_on: Dict[str, Any] = {"PROBE": {"actions": ["mk:probe"]}}
     if pos == "sole":
         c1["on"]["E"] = tr("mk:fire", gcfg, "c2")
